@@ -195,3 +195,184 @@ def unit_masks(variant, nb=2, hermitian=None, timeout_ms=20000, canary=False):
     r.bounded.append(f"number of blocks = {nb} and the masked block is block 0 (block sizes, energies, masks, tolerance symbolic)")
     r.notes.append("extraction: the slice of block_diagonalize from the commuting_blocks statement to the end of the `if not fully_diagonalize` statement")
     return r
+
+
+# ---- operator-valued masks (second-quantized Hamiltonians) -------------------------------------------
+
+def unit_masks_operators(variant, hermitian=True, n=2, nterms=2, timeout_ms=20000):
+    """The `else:` branch (H_0 contains operators) of the `if not fully_diagonalize: ... elif not operators: ... else:` statement of block_diagonalize.
+    variant: 'dict' (masks given as matrices of operator expressions) | 'tuple' (blocks given by index).
+      dict:  every value is converted entry-wise to number-ordered form once; ValueError - and nothing else - is raised exactly when (Hermitian mode and some
+             entry (i, j), i >= j, whose adjoint differs from entry (j, i)) or (some DIAGONAL entry has a term all of whose powers vanish: a number-conserving term
+             couples a level to itself); otherwise  diag(x, index) = apply_mask_to_operator(x, mask[index[0]], keep=False)  and
+             offdiag(x, index) = apply_mask_to_operator(x, mask[index[0]], keep=True)  with the SAME converted mask object;
+      tuple: the mask of a listed block is the 0/1 matrix of equal unperturbed energies (equal_eigs) in number-ordered form; diag keeps it (keep=True), offdiag
+             is its complement (keep=False).
+      both:  a BlockSeries argument is indexed first; the zero sentinel stays the sentinel; a block without a mask is kept whole by diag and gives zero in offdiag."""
+    from contracts.formats import T
+
+    def harness(eng):
+        frag = fragment()[-1]
+        assert isinstance(frag, ast.If) and ast.unparse(frag.test) == "not fully_diagonalize"
+
+        class Tok(T):
+            METHODS = T.METHODS | {"astype", "applyfunc"}
+
+        calls = {"from_expr": 0, "apply": []}
+        masked, other = 0, 1
+        sym = {(i, j): eng.fresh(f"adjoint_of_{i}{j}_is_{j}{i}", "bool") for i in range(n) for j in range(i + 1)}
+        pw_ = {(i, t, m): eng.fresh(f"power_{i}_{t}_{m}") for i in range(n) for t in range(nterms) for m in range(2)}
+        for v in pw_.values():
+            eng.assume(v >= 0)
+        has_terms = {i: (eng.branch(eng.fresh(f"diagonal_entry_{i}_is_an_operator_expression", "bool")) if i == 0 else True) for i in range(n)}
+
+        class Adj(Model):
+            def __init__(s, i, j):
+                s.i, s.j = i, j
+
+            def m_binop(s, e, op, othr, reflected):
+                if isinstance(op, ast.Eq) and isinstance(othr, Ent) and (othr.i, othr.j) == (s.j, s.i) and (s.i, s.j) in sym:
+                    return SB(sym[(s.i, s.j)])
+                raise Unsupported("comparison of mask entries other than adjoint(i, j) with (j, i), i >= j")
+
+        class Ent(Model):
+            def __init__(s, i, j, converted):
+                s.i, s.j, s.converted = i, j, converted
+
+            def m_getattr(s, e, name):
+                if not s.converted:
+                    raise Unsupported("attribute of a mask entry before its conversion to number-ordered form")
+                if name == "adjoint":
+                    return Builtin("adjoint", lambda e_: Adj(s.i, s.j))
+                if name == "terms":
+                    if s.i != s.j:
+                        raise Unsupported("terms of an off-diagonal mask entry")
+                    return STup([STup([SI(pw_[(s.i, t, m)]) for m in range(2)]) for t in range(nterms)])
+                raise Unsupported(f"mask entry .{name}")
+
+        class MaskMat(Model):
+            def __init__(s, converted=False, is_array=False):
+                s.converted, s.is_array = converted, is_array
+                s.entries = {}
+
+            def m_getattr(s, e, name):
+                if name == "applyfunc" and not s.is_array:
+                    def applyfunc(e_, f):
+                        calls["from_expr"] += 1
+                        if f is not FROM_EXPR:
+                            raise Unsupported("applyfunc of another function")
+                        return MaskMat(True, False)
+                    return Builtin("applyfunc", applyfunc)
+                if name == "shape":
+                    return STup([n, n])
+                raise Unsupported(f"mask.{name}")
+
+            def m_getitem(s, e, key):
+                if not s.is_array:
+                    raise Unsupported("indexing the sympy matrix (the code indexes the numpy copy)")
+                k = e.as_seq(key).items
+                if not all(isinstance(q, int) for q in k) or len(k) != 2:
+                    raise Unsupported("mask index")
+                return s.entries.setdefault(tuple(k), Ent(k[0], k[1], s.converted))
+
+        FROM_EXPR = Builtin("NumberOrderedForm.from_expr", lambda e, x: x)
+        user_mask = MaskMat()
+        arrays = []
+
+        def np_array(e, x):
+            if isinstance(x, MaskMat):
+                a = MaskMat(x.converted, True)
+                arrays.append(a)
+                return a
+            a = Tok("np.array", x)
+            arrays.append(a)
+            return a
+
+        def getattr_(e, obj, name, default=None):
+            if isinstance(obj, Ent) and name == "terms" and not has_terms[obj.i]:
+                return default        # e.g. sympy's Zero: not an operator expression
+            return e.getattr(obj, name)
+
+        def apply_mask(e, x, mask, keep=None):
+            calls["apply"].append((x, mask, keep))
+            return Tok("masked", x)
+        eng.globals.update({
+            "np": Namespace("np", {"array": Builtin("np.array", np_array)}),
+            "sympy": Namespace("sympy", {"sympify": Builtin("sympify", lambda e, x: x), "Matrix": Builtin("sympy.Matrix", lambda e, x: Tok("sympy.Matrix", x))}),
+            "NumberOrderedForm": Namespace("NumberOrderedForm", {"from_expr": FROM_EXPR}),
+            "second_quantization": Namespace("second_quantization", {"apply_mask_to_operator": Builtin("apply_mask_to_operator", apply_mask)}),
+            "getattr": Builtin("getattr", getattr_), "BlockSeries": TypeObj("BlockSeries"), "zero": ZERO,
+        })
+        EQ = Tok("equal_eigs[0]")
+        fully = {masked: user_mask} if variant == "dict" else STup([masked])
+        scope = {}
+        env = Env(None, {"fully_diagonalize": fully, "operators": STup([Tok("a")], None, True), "hermitian": hermitian, "equal_eigs": {masked: EQ}, "scope": scope})
+        not_sym = z3.Or(*[z3.Not(v) for v in sym.values()])
+        conserving = z3.Or(*[z3.And(*[pw_[(i, t, m)] == 0 for m in range(2)]) for i in range(n) if has_terms[i] for t in range(nterms)]) if nterms else z3.BoolVal(False)
+        must_raise = z3.Or(z3.And(z3.BoolVal(bool(hermitian)), not_sym), conserving) if variant == "dict" else z3.BoolVal(False)
+        try:
+            eng.exec_block([frag], env)
+        except PyRaise as pr:
+            eng.oblige("raises-only-ValueError", z3.BoolVal(pr.exc.cls == "ValueError"), detail=pr.exc.cls)
+            eng.oblige("mask-rejected-only-if-asymmetric-in-Hermitian-mode-or-selecting-a-number-conserving-diagonal-term", must_raise)
+            return
+        eng.oblige("asymmetric-mask-(Hermitian-mode)-or-number-conserving-diagonal-term-is-rejected", z3.Not(must_raise),
+                   detail="a number-conserving term of a diagonal entry couples a level to itself (equal unperturbed energy) and cannot be eliminated (C20)")
+        diag, offdiag = scope.get("diag"), scope.get("offdiag")
+        ok = isinstance(diag, Closure) and isinstance(offdiag, Closure)
+        eng.oblige("closures-installed", z3.BoolVal(ok))
+        if not ok:
+            return
+        if variant == "dict":
+            eng.oblige("dict:mask-converted-to-number-ordered-form-exactly-once", z3.BoolVal(calls["from_expr"] == 1 and len(arrays) == 1 and arrays[0].converted))
+        else:
+            a0 = arrays[0] if arrays else None
+            want = "np.array(.applyfunc(sympy.Matrix(.astype(equal_eigs[0], int)), NumberOrderedForm.from_expr))"
+            eng.oblige("tuple:mask-is-the-equal-energy-pattern-in-number-ordered-form", z3.BoolVal(len(arrays) == 1 and _shape_of(a0) == want), detail=f"{_shape_of(a0)}")
+        mask = arrays[0] if arrays else None
+        X = Tok("x")
+        idx = STup([masked, masked, 1])
+        keep_diag = (variant == "tuple")
+        for fn_, nm, keep in ((diag, "diag", keep_diag), (offdiag, "offdiag", not keep_diag)):
+            del calls["apply"][:]
+            r = eng.call(fn_, [X, idx], {})
+            c = calls["apply"]
+            eng.oblige(f"{nm}:applies-the-block's-mask-with-keep={keep}", z3.BoolVal(len(c) == 1 and c[0][0] is X and c[0][1] is mask and c[0][2] is keep
+                                                                                      and isinstance(r, Tok) and r.head == "masked"),
+                       detail=f"calls: {[(repr(a), type(b).__name__, k) for a, b, k in c]}")
+            del calls["apply"][:]
+            r = eng.call(fn_, [ZERO, idx], {})
+            eng.oblige(f"{nm}:zero-sentinel-stays-zero", z3.BoolVal(r is ZERO and not calls["apply"]))
+            ser = SSeries("Hser", 2, 2, 1)
+            got = []
+            ser.hooks["on_read"] = lambda e, s, i, j, vec: got.append((i, j))
+            try:
+                eng.call(fn_, [ser, idx], {})
+            except Unsupported:
+                pass
+            eng.oblige(f"{nm}:series-argument-indexed-at-the-index", z3.BoolVal(len(got) == 1 and got[0] == (masked, masked)))
+            del calls["apply"][:]
+            r = eng.call(fn_, [X, STup([other, other, 1])], {})
+            if nm == "diag":
+                eng.oblige("unmasked-block:diag-is-identity", z3.BoolVal(r is X and not calls["apply"]))
+            else:
+                eng.oblige("unmasked-block:offdiag-is-zero", z3.BoolVal(r is ZERO and not calls["apply"]))
+
+    def _shape_of(t):
+        from contracts.formats import T as _T
+        if isinstance(t, _T):
+            h = t.head
+            if t.args:
+                return f"{h}({', '.join(_shape_of(a) for a in t.args)})"
+            return h
+        if isinstance(t, Builtin):
+            return t.name
+        if isinstance(t, TypeObj):
+            return t.name
+        return repr(t)
+
+    nm = f"block_diagonalization:block_diagonalize/masks[operators,{variant},hermitian={hermitian}]"
+    r = run_unit(nm, harness, functions=[(MODULE, "block_diagonalize")], timeout_ms=timeout_ms)
+    r.bounded.append(f"mask of block 0 is {n}x{n}, every diagonal entry has {nterms} terms over 2 modes (powers symbolic); symmetry of each entry pair symbolic")
+    r.notes.append("extraction: the `if not fully_diagonalize: ... elif not operators: ... else:` statement of block_diagonalize, executed with a non-empty operator list")
+    return r
